@@ -151,3 +151,11 @@ chk(
     "runtime monitoring: per-core access/barrier event logs checked offline by a happens-before (barrier epoch) race detector",
     "DESIGN.md section 3 C13",
 )
+chk(
+    "C15",
+    "translation_validation",
+    "Generated loops of the recognised shape (subviews on the induction variable, 2-4 barrier-separated stages of copies and kernels over tile buffers, many buffer-to-stage assignments, constant and dynamic lb/ub/step, trip counts 0..7) are pushed through the real construct-pipeline, pipeline-duplicate-buffers and unroll-pipeline; the original and the pipelined program are executed on the logical buffer machine (poisoned allocations, unique symbols in the external buffers). The multiset of stage executions (op id, external regions read/written, digest of the data read) and the final external contents must be equal, and inside every barrier epoch of the pipelined program no copy (data-mover core) and kernel (compute core) may touch intersecting regions with a write - which extends the program-order result to every interleaving the barriers permit.",
+    TB + "logical buffer machine / trace machine; core roles from the generator's tags; one known finding (dynamic upper bound with fewer iterations than stages-1) attributed by predicate + counterfactual guard (vf/counterfactual/pipeline_guard.py); unsupported buffer assignments are refused by the compiler (counted).",
+    "runtime monitoring: before/after execution with exactly-once event multisets, final-state comparison and a barrier-epoch race detector on the pipelined program",
+    "DESIGN.md section 3 C15",
+)
